@@ -220,7 +220,7 @@ fn bundled_lines(r: &mut Report) {
 }
 
 // ---- database texts ----
-pub const LINE_KINDS: [&str; 22] = [
+pub const LINE_KINDS: [&str; 23] = [
     "[tcp:request]",
     "[tcp:response]",
     "[http:request]",
@@ -244,6 +244,8 @@ pub const LINE_KINDS: [&str; 22] = [
     "sig   = 1:Host,User-Agent:Via:SomeBot/1.0 [en]",
     "label = Ethernet [std]",
     "[tcp:request] these are the SYN signatures",
+    // class names are alphanumeric: digits inside and in front
+    "classes = win,unix,bsd4,9x,other",
 ];
 #[derive(Debug, Default, PartialEq, Clone)]
 pub struct DbDesc {
@@ -462,7 +464,7 @@ pub fn run(thorough: bool) -> Outcome {
     });
     r = r.merge(rep);
     bundled_lines(&mut r);
-    // database texts: every sequence of <= depth lines over the 22 line kinds, plus the bundled file
+    // database texts: every sequence of <= depth lines over the 23 line kinds, plus the bundled file
     let depth = if thorough { 6 } else { 5 };
     let k = LINE_KINDS.len();
     let mut total = 0usize;
